@@ -207,6 +207,9 @@ func (g *gen) leafVal(sv int, inFor bool) *Node {
 				}
 				return mt(1 + 2*g.r.Intn(2))
 			}
+			if !g.avoid[fpSubNeg] && g.r.Intn(80) == 0 {
+				return mt(-1 - g.r.Intn(2)) // undocumented value; must not panic
+			}
 			return mt(g.r.Intn(sv))
 		case 4:
 			if g.keyOK(inFor) {
